@@ -109,13 +109,28 @@ func filtered(g genFunc, kinds ...string) genFunc {
 	}
 }
 
+// every n-th line of g's output
+func thinned(g genFunc, n int) genFunc {
+	return func(w *bufio.Writer, seed uint64, tier string) {
+		var buf bytes.Buffer
+		bw := bufio.NewWriter(&buf)
+		g(bw, seed, tier)
+		bw.Flush()
+		for i, line := range strings.Split(buf.String(), "\n") {
+			if i%n == 0 && line != "" {
+				fmt.Fprintln(w, line)
+			}
+		}
+	}
+}
+
 func forProp(prop string, g func(*bufio.Writer, uint64, string, string)) genFunc {
 	return func(w *bufio.Writer, seed uint64, tier string) { g(w, seed, tier, prop) }
 }
 
 func init() {
 	// C05 (digests are what the specifications prescribe): PE image hash ops, PE checksum ops, APK merkle ops, ECDSA width ops
-	gens["C05"] = []genFunc{forProp("C05", pe.Gen), filtered(c09.Gen, "cksum", "fixpe", "fixpehex", "merkle"), filtered(c19.Gen, "ecdsa", "ecdsasign"), forProp("C05", c18.MsiGen), forProp("C05", jar.Gen), forProp("C05", apkb.Gen)}
+	gens["C05"] = []genFunc{forProp("C05", pe.Gen), filtered(c09.Gen, "cksum", "fixpe", "fixpehex", "merkle"), filtered(c19.Gen, "ecdsa", "ecdsasign"), thinned(filtered(c19.Gen, "canon"), 4), forProp("C05", c18.MsiGen), forProp("C05", jar.Gen), forProp("C05", apkb.Gen)}
 	gens["C18"] = append(gens["C18"], forProp("C18", c18.MsiGen))
 	for _, p := range []string{"C01", "C02", "C03", "C08", "C11"} {
 		gens[p] = append(gens[p], forProp(p, pe.Gen))
